@@ -20,7 +20,9 @@ the harness' `av::Obj`, `av::DObj` a class derived from it.  The object argument
 `const DObj`, and reaches the member functor by a direct call, through a slot, through a signal emission (several slots:
 what one method writes the next one and the emitter must see), through adaptor chains and as a `std::ref` / `std::cref`
 object bound with `bind<0>`.  Observed: `this` of the method (it must be the passed object, parameter 0 of the record),
-values, copy/move counters (zero copies).  Model: `OExpr.mleaf`, whose object parameter follows the rows
+values, copy/move counters (zero copies).  Bound types spelled explicitly as references (`bind<I, decltype(f), Obj&>(f, o)`,
+`bind<decltype(f), const Obj&>(f, o)`, bound kinds "R" / "C") hold the object like std::ref / std::cref do (`Bound.byRef` /
+`Bound.byCRef` in the model): identity, modification through the reference, zero copies.  Model: `OExpr.mleaf`, whose object parameter follows the rows
 `memFunctorExact` / `memFunctorDerived` of `paramKind` (by reference); theorems mem_functor_object_identity and
 mem_functor_byvalue_witness.
 """
@@ -195,6 +197,32 @@ def build_mem_cases(ctx):
                     ch = outer + [("Bi", 0, (bk, cls0))] + ([rng.choice(["TO", "EC", "HR"])] if i % 4 == 0 else [])
                     chains = [ch] + ([[rng.choice(MEM_KINDS)]] if route == "G" and extra and rng.chance(0.5) else [])
                     add(g.mem_case(sig, cls, route, chains), "bound")
+    return cases
+
+
+REFBOUND = [([("R", None)], 0, [], []), ([("C", None)], None, [], []), ([("R", None), ("C", None)], 0, [], []),
+            ([("v", None), ("R", None)], None, ["H"], []), ([("C", None)], 1, [], ["TO"]), ([("R", None)], None, ["HR"], []),
+            ([("R", None), ("r", None)], 0, [], ["EC"]), ([("C", None), ("v", None)], 0, ["SL"], []), ([("R", None)], 0, [], [])]
+
+
+def build_refbound_cases(ctx):
+    """bound types spelled explicitly as references: bind<I, decltype(f), Obj&, ...>(f, o, ...) and
+    bind<decltype(f), const Obj&, ...>(f, o, ...) hold the object o itself (like std::ref / std::cref): the target
+    receives o, what it writes through an Obj& reaches o, o is never copied"""
+    rng = ctx.rng
+    g = ag.GenC11(rng)
+    cases = []
+    for _ in range(5 if ctx.thorough else 1):
+        for i, (specs, pos, outer, inner) in enumerate(REFBOUND):
+            n = rng.below(3)
+            sig = "".join(rng.choice("vlc") for _ in range(n + (1 if "H" in outer else 0)))
+            kind = ("Bi", pos, list(specs)) if pos is not None else ("B", None, list(specs))
+            chains = [list(outer) + [kind] + list(inner)]
+            if i % 3 == 2:
+                chains.append([("Bi", 0, list(specs))] if rng.chance(0.5) else [rng.choice(ag.KINDS11)])
+            c = g.case(sig, len(chains), chains)
+            c["origin"] = "gen:refbound"
+            cases.append(c)
     return cases
 
 
@@ -444,7 +472,7 @@ _RTMOD = _RT
 
 def correspondence(ctx):
     corpus = load_corpus()
-    gen = build_cases(ctx) + build_mem_cases(ctx)
+    gen = build_cases(ctx) + build_mem_cases(ctx) + build_refbound_cases(ctx)
     cases = corpus + gen
     probes = build_probes(ctx)       # result references: direct-call probes, built together with the signal cases
     per_tu = 20 if ctx.thorough else max(8, (len(cases) + len(probes) + common.NCPU - 1) // common.NCPU)
